@@ -28,7 +28,7 @@ void __tsan_write_range(void *a, unsigned long n) { (void)n; sim_access_point(a,
 typedef int morder;
 #define ATOMICS(bits, T)                                                                                               \
     T __tsan_atomic##bits##_load(const volatile T *a, morder mo) { (void)mo; sim_atomic_point(a, 1); return __atomic_load_n(a, __ATOMIC_SEQ_CST); } \
-    void __tsan_atomic##bits##_store(volatile T *a, T v, morder mo) { (void)mo; sim_atomic_point(a, 2); __atomic_store_n(a, v, __ATOMIC_SEQ_CST); } \
+    void __tsan_atomic##bits##_store(volatile T *a, T v, morder mo) { (void)mo; sim_atomic_point(a, 2); __atomic_store_n(a, v, __ATOMIC_SEQ_CST); sim_atomic_point(a, 12); } \
     T __tsan_atomic##bits##_exchange(volatile T *a, T v, morder mo) { (void)mo; sim_atomic_point(a, 3); return __atomic_exchange_n(a, v, __ATOMIC_SEQ_CST); } \
     T __tsan_atomic##bits##_fetch_add(volatile T *a, T v, morder mo) { (void)mo; sim_atomic_point(a, 5); return __atomic_fetch_add(a, v, __ATOMIC_SEQ_CST); } \
     T __tsan_atomic##bits##_fetch_sub(volatile T *a, T v, morder mo) { (void)mo; sim_atomic_point(a, 6); return __atomic_fetch_sub(a, v, __ATOMIC_SEQ_CST); } \
